@@ -619,13 +619,17 @@ def r8(ctx: Context) -> None:
     ctx.floor("R8", "backend getters", n2, 60)
 
 
+# the shared (backend independent) halves of the storage components: a swallowed error there hides the failure on both backends
+_STORAGE_BASES = {"BaseClientDataStore", "BaseStateBackend", "BaseBroker", "BaseTrigger", "BaseBlockingControl"}
+
+
 def r11(ctx: Context, class_filter=None) -> None:
     """a backend operation that failed says so on both backends: no handler of a Mem* / SQLite* component turns an exception into a normal result (the in-memory sibling has no such failure and would answer differently)"""
     ctx.rule("R11", "no method of an in-memory or SQLite component swallows an exception (every `except` ends in `raise`); the single allowed site is the bounded retry of `database is locked` in the connection wrapper")
     ALLOWED = {"pynenc.util.sqlite_utils.SQLiteConnection.execute": "bounded retry on 'database is locked', re-raises afterwards"}
     n11 = 0
     for c in ctx.repo.classes.values():
-        if not (c.name.startswith(("Mem", "SQLite")) and c.module.name.startswith("pynenc.")):
+        if not ((c.name.startswith(("Mem", "SQLite")) or c.name in _STORAGE_BASES) and c.module.name.startswith("pynenc.")):
             continue
         if class_filter is not None and not class_filter(c):
             continue
